@@ -7,7 +7,6 @@ import (
 	"go/token"
 	"sort"
 	"strings"
-	"time"
 
 	"golang.org/x/tools/go/ssa"
 )
@@ -511,22 +510,61 @@ type absWeek struct{ y, m, d, start int64 }
 // R15.10: the month-separated walk of SolarWeek.Next.
 func r15_10(c *Ctx, r *Report) {
 	const rule = "R15.10"
-	r.rule(rule, "Moving by month-separated weeks walks the sequence (month, week 1..k), (next month, week 1..) one position per step. SolarWeek.Next(n, true) is followed by the evaluator (its loop as a table over the iteration number; the week helpers, function literals and constructors inline or as records; civil-day stepping, weekdays and month lengths supplied by the checker's own calendar) for every day from 2021-11-20 to 2022-03-10, all seven first weekdays and n in {1, 2, 5, -1, -2, -5}: the week it returns lies in the month, and has the index in that month, that the walk states — index+1 within a month of k weeks, (next month, 1) after week k, index-1, (previous month, its last week) before week 1 — where k = ceil((days of the month + offset of its first day)/7) and the index of a day is ceil((day + offset)/7). Moving 0 weeks returns the same week.")
+	r.rule(rule, "Moving by month-separated weeks walks the sequence (month, week 1..k), (next month, week 1..) one position per step. SolarWeek.Next(n, true) is followed by the evaluator (its loop as a table over the iteration number; the week helpers, function literals and constructors inline or as records; civil-day stepping, weekdays and month lengths supplied by the checker's own calendar) for every day from 2021-11-20 to 2022-03-10 and from 1582-09-10 to 1582-11-30 (the month of 21 days), all seven first weekdays and n in {1, 2, 5, -1, -2, -5}: the week it returns lies in the month, and has the index in that month, that the walk states — index+1 within a month of k weeks, (next month, 1) after week k, index-1, (previous month, its last week) before week 1 — where k = ceil((days of the month + offset of its first day)/7) and the index of a day is ceil((day + offset)/7). Moving 0 weeks returns the same week.")
 	fn := c.Fn(r, rule, "calendar.(*SolarWeek).Next")
 	if fn == nil || len(fn.Params) != 3 {
 		return
 	}
-	civil := func(y, m, d int64) time.Time { return time.Date(int(y), time.Month(m), int(d), 0, 0, 0, 0, time.UTC) }
-	daysOf := func(y, m int64) int64 { return int64(civil(y, m+1, 0).Day()) }
-	offsetOf := func(y, m, start int64) int64 { return (int64(civil(y, m, 1).Weekday()) - start + 7) % 7 }
-	indexOf := func(y, m, d, start int64) int64 { return (d + offsetOf(y, m, start) + 6) / 7 }
+	// the checker's own civil calendar: Julian up to 1582-10-04, Gregorian from 1582-10-15, as serial day numbers
+	dayNo := func(y, m, d int64) int64 {
+		a := (14 - m) / 12
+		yy, mm := y+4800-a, m+12*a-3
+		if y < 1582 || (y == 1582 && (m < 10 || (m == 10 && d < 15))) {
+			return d + (153*mm+2)/5 + 365*yy + yy/4 - 32083
+		}
+		return d + (153*mm+2)/5 + 365*yy + yy/4 - yy/100 + yy/400 - 32045
+	}
+	dateOf := func(n int64) (int64, int64, int64) {
+		var bb, cc int64
+		if n >= 2299161 {
+			a := n + 32044
+			bb = (4*a + 3) / 146097
+			cc = a - 146097*bb/4
+		} else {
+			bb, cc = 0, n+32082
+		}
+		dd := (4*cc + 3) / 1461
+		e := cc - 1461*dd/4
+		mm := (5*e + 2) / 153
+		return 100*bb + dd - 4800 + mm/10, mm + 3 - 12*(mm/10), e - (153*mm+2)/5 + 1
+	}
+	weekdayOf := func(y, m, d int64) int64 { return (dayNo(y, m, d) + 1) % 7 }
+	daysOf := func(y, m int64) int64 { return civilDaysOfMonth(y, m) }
+	ordinal := func(y, m, d int64) int64 { return dayNo(y, m, d) - dayNo(y, m, 1) + 1 }
+	offsetOf := func(y, m, start int64) int64 { return (weekdayOf(y, m, 1) - start + 7) % 7 }
+	indexOf := func(y, m, d, start int64) int64 { return (ordinal(y, m, d) + offsetOf(y, m, start) + 6) / 7 }
 	weeksOf := func(y, m, start int64) int64 { return (daysOf(y, m) + offsetOf(y, m, start) + 6) / 7 }
+	validDay := func(y, m, d int64) bool {
+		if m < 1 || m > 12 || d < 1 || d > 31 {
+			return false
+		}
+		yy, mm, dd := dateOf(dayNo(y, m, d))
+		return yy == y && mm == m && dd == d && !(y == 1582 && m == 10 && d > 4 && d < 15)
+	}
 	var bad []string
 	problems := map[string]bool{}
 	n := 0
-	first, last := civil(2021, 11, 20), civil(2022, 3, 10)
-	for day := first; !day.After(last) && len(bad) < 4 && len(problems) == 0; day = day.AddDate(0, 0, 1) {
-		y0, m0, d0 := int64(day.Year()), int64(day.Month()), int64(day.Day())
+	var dayNos []int64
+	for _, w := range [][2]int64{{dayNo(2021, 11, 20), dayNo(2022, 3, 10)}, {dayNo(1582, 9, 10), dayNo(1582, 11, 30)}} {
+		for k := w[0]; k <= w[1]; k++ {
+			dayNos = append(dayNos, k)
+		}
+	}
+	for _, dn := range dayNos {
+		if len(bad) >= 4 || len(problems) > 0 {
+			break
+		}
+		y0, m0, d0 := dateOf(dn)
 		for start := int64(0); start < 7; start++ {
 			for _, steps := range []int64{0, 1, 2, 5, -1, -2, -5} {
 				var leaf leafX
@@ -604,6 +642,10 @@ func r15_10(c *Ctx, r *Report) {
 					switch fname(call.Common().StaticCallee()) {
 					case "calendar.NewSolarFromYmd":
 						if a, ok := ints(fr, args); ok && len(a) == 3 {
+							if !validDay(a[0], a[1], a[2]) {
+								problems[fmt.Sprintf("a date that does not exist is built: %d-%d-%d", a[0], a[1], a[2])] = true
+								return nil, false
+							}
 							return absDate{a[0], a[1], a[2]}, true
 						}
 						return nil, false
@@ -615,19 +657,19 @@ func r15_10(c *Ctx, r *Report) {
 					case "calendar.(*Solar).NextDay":
 						dt, ok1 := asDate(fr, args[0])
 						k, ok2 := ints(fr, args[1:])
-						if ok1 && ok2 {
-							t := civil(dt.y, dt.m, dt.d).AddDate(0, 0, int(k[0]))
-							return absDate{int64(t.Year()), int64(t.Month()), int64(t.Day())}, true
+						if ok1 && ok2 && validDay(dt.y, dt.m, dt.d) {
+							ny, nm, nd := dateOf(dayNo(dt.y, dt.m, dt.d) + k[0])
+							return absDate{ny, nm, nd}, true
 						}
 						return nil, false
 					case "calendar.(*Solar).GetWeek":
-						if dt, ok := asDate(fr, args[0]); ok {
-							return int64(civil(dt.y, dt.m, dt.d).Weekday()), true
+						if dt, ok := asDate(fr, args[0]); ok && validDay(dt.y, dt.m, dt.d) {
+							return weekdayOf(dt.y, dt.m, dt.d), true
 						}
 						return nil, false
 					case "SolarUtil.GetWeek":
-						if a, ok := ints(fr, args); ok && len(a) == 3 {
-							return int64(civil(a[0], a[1], a[2]).Weekday()), true
+						if a, ok := ints(fr, args); ok && len(a) == 3 && validDay(a[0], a[1], a[2]) {
+							return weekdayOf(a[0], a[1], a[2]), true
 						}
 						return nil, false
 					case "SolarUtil.GetDaysOfMonth":
@@ -636,8 +678,8 @@ func r15_10(c *Ctx, r *Report) {
 						}
 						return nil, false
 					case "SolarUtil.GetDaysBetween":
-						if a, ok := ints(fr, args); ok && len(a) == 6 {
-							return int64(civil(a[3], a[4], a[5]).Sub(civil(a[0], a[1], a[2])).Hours() / 24), true
+						if a, ok := ints(fr, args); ok && len(a) == 6 && validDay(a[0], a[1], a[2]) && validDay(a[3], a[4], a[5]) {
+							return dayNo(a[3], a[4], a[5]) - dayNo(a[0], a[1], a[2]), true
 						}
 						return nil, false
 					}
@@ -692,5 +734,5 @@ func r15_10(c *Ctx, r *Report) {
 		bad = append(bad, p)
 	}
 	sort.Strings(bad)
-	r.check(len(bad) == 0 && n > 5000, rule, "calendar.(*SolarWeek).Next(n, true) walks (month, week) positions one per step", c.fnPos(fn), fmt.Sprintf("%d cases (day x first weekday x n); deviations: %v", n, headList(bad, 3)))
+	r.check(len(bad) == 0 && n > 8500, rule, "calendar.(*SolarWeek).Next(n, true) walks (month, week) positions one per step", c.fnPos(fn), fmt.Sprintf("%d cases (day x first weekday x n); deviations: %v", n, headList(bad, 3)))
 }
